@@ -104,6 +104,15 @@ THEOREMS = [
      "check_every cfg1 <= iteration (state_after_ops checked cfg t0 ops1) + 1 -> "
      "R <= t - win_start (state_after_ops checked cfg t0 ops1) -> "
      "decisions_ops checked cfg t0 (ops1 ++ Reg a t :: ops2) = decisions_ops checked cfg t0 ops1 ++ Ok Passed :: decisions_ops checked cfg1 t ops2"),
+    ("reset_within_check_every_ops",
+     "forall (checked : bool) (cfg : config) (t0 : N) (ops1 : list op) (h2 : list event) (R : N), "
+     "let cfg1 := config_after cfg ops1 in reset_after cfg1 = Some R -> check_every cfg1 <> usize_max -> "
+     "h2 <> [] -> check_every cfg1 <= N.of_nat (length h2) -> "
+     "Forall (fun e => R <= snd e - win_start (state_after_ops checked cfg t0 ops1)) h2 -> "
+     "exists p a t s, h2 = p ++ (a, t) :: s /\\ "
+     "state_after_ops checked cfg t0 (ops1 ++ map reg_of (p ++ [(a, t)])) = init t /\\ "
+     "decisions_ops checked cfg t0 (ops1 ++ map reg_of (p ++ [(a, t)])) = decisions_ops checked cfg t0 ops1 ++ repeat (Ok Passed) (S (length p)) /\\ "
+     "(p = [] \\/ N.of_nat (length p) < check_every cfg1)"),
     ("iteration_never_overflows_ops",
      "forall (checked : bool) (cfg : config) (t0 : N) (ops : list op), "
      "cfgs_ok cfg ops -> iteration (state_after_ops checked cfg t0 ops) + 1 <= usize_max"),
@@ -144,13 +153,14 @@ RULE = ("(1) direct calls LimitManager::new(max, check_every, reset_seconds) + r
         "{register a, register b, max:=0, max:=1, every:=1, every:=2, disable} followed by 4 calls; random interleavings. Compared with the "
         "Coq model, with the Coq reference for operation histories, and with an independent reference written in Python (ladder of the "
         "current max on the per-address count of the current window). "
-        "(2) availability: a real server (RunConfig::execute on a loopback port, IPv4-only or the default dual-stack binding, one host; host "
+        "(2) availability: a real server (RunConfig::execute on a loopback port; IPv4-only, the default two listeners, or IPv6-only where IPv4 "
+        "peers arrive v4-mapped at the [::] listener; one host; host "
         "limiter configured by assignment of LimitManager::new or by the setters on the Host's own limiter; pre-host limiter = the clone "
         "taken by insert, a clone with other settings, or a separate manager via set_pre_host_limiter) receives sequential connections bound "
         "to 127.0.0.1..4, each making 1..n requests; the answers (200 / 429 / closed without answer / connection refused) and whether the "
         "port still accepts at the end are compared with the model of the accept loop, with the reference server that never stops accepting "
-        "(Coq) and with the Python reference. Floods: an address at the drop level makes 1, 3*max+2, 99, 100, 101, 150, 300 (thorough: also "
-        "102, 200, 201, 202, 400) connections in a row (all dropped at accept), then 127.0.0.2 must be accepted and answered 200, and after "
+        "(Coq) and with the Python reference. Floods: an address at the drop level makes 1, 3*max+2, 99, 100, 101, 150, 300, 700 (thorough: also "
+        "102, 200, 201, 202, 400, 1000, 2500) connections in a row (all dropped at accept), then 127.0.0.2 must be accepted and answered 200, and after "
         "the reset interval (3 s, real time) the flooder itself is served again. distinct_nontrivial counts "
         "inputs whose outcome contains at least one Send/Drop decision or one 429/cut/refused connection")
 ASSUMPTIONS = [
@@ -386,14 +396,23 @@ def gen_ops(rng, quick):
 def gen_server(rng, quick):
     cases = []
     k = 0
-    # ---- floods around every constant of the accept loop, both bindings ------------------------------
-    lengths = [1, 8, 99, 100, 101, 150, 300] + ([] if quick else [102, 200, 201, 202, 400])
-    for bind in (0, 1):
+    # ---- floods around every constant of the accept loop; IPv4-only, both listeners, IPv6-only (v4-mapped peers) ----
+    lengths = [1, 8, 99, 100, 101, 150, 300, 700] + ([] if quick else [102, 200, 201, 202, 400, 1000, 2500])
+    for bind in (0, 1, 2):
         for n in lengths:
+            if bind == 2 and quick and n not in (8, 101, 300):
+                continue
             mx = 2
             n = 3 * mx + 2 if n == 8 else n
             k += 1
-            cases += srv(mx, 1, R_SRV, flood(mx, n, SRV_WAIT), "server-flood", PROFILES[k % 2], path=k % 2, bind=bind)
+            if n >= 700:      # too long to stay clear of a 3 s reset time on a loaded machine: no reset in these
+                cases += srv(mx, 1, HOUR, flood(mx, n, 0), "server-flood", PROFILES[k % 2], path=k % 2, bind=bind)
+            else:
+                cases += srv(mx, 1, R_SRV, flood(mx, n, SRV_WAIT), "server-flood", PROFILES[k % 2], path=k % 2, bind=bind)
+    # one address walks through the whole ladder with one-request connections (passed, 429 level, drop level), then the bystander
+    for bind, mx in ((0, 30), (1, 45)) if quick else ((0, 30), (1, 45), (2, 30), (0, 120), (1, 200)):
+        k += 1
+        cases += srv(mx, 1, HOUR, [(0, 0, 1, (3 * mx) // 2 + 25), (1, 0, 1), (0, 0, 2)], "server-ladder-walk", PROFILES[k % 2], path=k % 2, bind=bind)
     if not quick:
         for bind in (0, 1):
             for n in (101, 250):
@@ -427,7 +446,7 @@ def gen_server(rng, quick):
             conns.append(c + (rng.randrange(2, 12),) if rng.random() < 0.15 else c)
         pre = rng.choice([None, None, None, ("own", rng.randrange(0, 4), rng.choice([1, 2]), HOUR),
                           ("clone", rng.randrange(0, 4), rng.choice([1, 2]), rng.choice([HOUR, "inf"]))])
-        cases += srv(mx, ce, reset, conns, "server-random", PROFILES[i % 2], path=rng.randrange(2), pre=pre, bind=rng.randrange(2))
+        cases += srv(mx, ce, reset, conns, "server-random", PROFILES[i % 2], path=rng.randrange(2), pre=pre, bind=rng.randrange(3))
     return cases
 
 
